@@ -5,10 +5,16 @@ package main
 // with HcModel/PairVerify.lean on symbolic histories over 1-2 connections and a changing pairing store.
 
 import (
+	"bytes"
 	"crypto/ed25519"
 	"fmt"
+	"github.com/brutella/hc/hap"
+	"io"
 	"math/rand"
+	"net"
 	"strings"
+	"sync"
+	"time"
 
 	"github.com/brutella/hc/accessory"
 	"github.com/brutella/hc/crypto"
@@ -84,7 +90,9 @@ func (m pvMsg) tok() string {
 	return m.Kind
 }
 
-func (m pvMsg) noop() bool { return m.Kind == "badmethod" || m.Kind == "badstate" || m.Kind == "malformed" }
+func (m pvMsg) noop() bool {
+	return m.Kind == "badmethod" || m.Kind == "badstate" || m.Kind == "malformed"
+}
 
 func genuineV3(conn, e, name, pk int) pvMsg {
 	return pvMsg{Kind: "v3", Short: -1, KKind: "eph", KConn: conn, KE: e, NonceOk: true, Intact: true, Name: name,
@@ -407,6 +415,7 @@ func pvCorpus() [][]pvStep {
 }
 
 func checkC03(c *Ctx) {
+	c03Handover(c)
 	c.SetRule("histories of 1-10 symbolic pair-verify messages on 1-2 interleaved connections with a pairing store that changes between messages " +
 		"(alphabet: start with good / wrong-length key; finish genuine, unknown name, entity without key, stored key ≠ signer, garbage/empty signature, " +
 		"signature over stale/zero ephemeral key, other name, other connection's accessory key; sealed under zero / random / other exchange's / other connection's key; " +
@@ -557,6 +566,155 @@ func checkC03(c *Ctx) {
 				toks = append(toks, fmt.Sprintf("c%d:%s", s.Conn, s.Msg.tok()))
 			}
 			c.Sample(map[string]interface{}{"history": toks, "observed": implObs[ci]})
+		}
+	}
+}
+
+// ---- hand-over of the connection to the negotiated cryptographer ------------------------------------------------------
+
+// hoConn is a net.Conn whose Read blocks until bytes are pushed (or the deadline passes) and signals when a Read starts.
+type hoConn struct {
+	mu      sync.Mutex
+	in      []byte
+	wake    chan struct{}
+	started chan struct{}
+	out     [][]byte
+	dl      time.Time
+}
+
+func newHoConn() *hoConn {
+	return &hoConn{wake: make(chan struct{}, 16), started: make(chan struct{}, 16)}
+}
+func (h *hoConn) Read(b []byte) (int, error) {
+	h.started <- struct{}{}
+	for {
+		h.mu.Lock()
+		if len(h.in) > 0 {
+			n := copy(b, h.in)
+			h.in = h.in[n:]
+			h.mu.Unlock()
+			return n, nil
+		}
+		h.mu.Unlock()
+		select {
+		case <-h.wake:
+		case <-time.After(3 * time.Second):
+			return 0, io.EOF
+		}
+	}
+}
+func (h *hoConn) push(b []byte) {
+	h.mu.Lock()
+	h.in = append(h.in, b...)
+	h.mu.Unlock()
+	h.wake <- struct{}{}
+}
+func (h *hoConn) Write(b []byte) (int, error) {
+	h.mu.Lock()
+	h.out = append(h.out, append([]byte{}, b...))
+	h.mu.Unlock()
+	return len(b), nil
+}
+func (h *hoConn) Close() error                       { return nil }
+func (h *hoConn) LocalAddr() net.Addr                { return fakeAddr("127.0.0.1:1") }
+func (h *hoConn) RemoteAddr() net.Addr               { return fakeAddr("10.0.4.1:4000") }
+func (h *hoConn) SetDeadline(t time.Time) error      { return nil }
+func (h *hoConn) SetReadDeadline(t time.Time) error  { return nil }
+func (h *hoConn) SetWriteDeadline(t time.Time) error { return nil }
+
+// c03Handover forces each interleaving of (a read starting | the handler negotiating the cryptographer | the answer
+// being written | the controller sending ciphertext) on a real hap.Connection and compares with HcModel/Handover.lean.
+func c03Handover(c *Ctx) {
+	schedules := [][]string{
+		{"readStart", "setCrypt", "writeResp", "peerSends", "readDone"},
+		{"setCrypt", "readStart", "writeResp", "peerSends", "readDone"},
+		{"setCrypt", "writeResp", "readStart", "peerSends", "readDone"},
+		{"setCrypt", "writeResp", "peerSends", "readStart", "readDone"},
+	}
+	for rep := 0; rep < c.Pick(3, 40); rep++ {
+		for si, ops := range schedules {
+			id := fmt.Sprintf("handover#%d.%d", si, rep)
+			if c.Skip(id) {
+				continue
+			}
+			r := c.CaseRng("handover", si*1000+rep)
+			raw := newHoConn()
+			ctx := hap.NewContextForSecuredDevice(nil)
+			conn := hap.NewConnection(raw, ctx)
+			sess := ctx.GetSessionForConnection(raw)
+			var shared [32]byte
+			copy(shared[:], randBytes(r, 32))
+			sec, _ := crypto.NewSecureSessionFromSharedKey(shared)
+			peer := newRefControllerSession(shared[:])
+			answer := []byte("HTTP/1.1 200 OK\r\nContent-Type: application/pairing+tlv8\r\nContent-Length: 3\r\n\r\n\x06\x01\x04")
+			request := []byte(fmt.Sprintf("GET /accessories?%d HTTP/1.1\r\nHost: x\r\n\r\n", r.Intn(1000)))
+			type rd struct {
+				b   byte
+				n   int
+				err error
+			}
+			done := make(chan rd, 1)
+			resp, delivered := "none", "none"
+			for _, op := range ops {
+				switch op {
+				case "readStart":
+					go func() {
+						var one [1]byte // net/http's background read asks for one byte
+						n, err := conn.Read(one[:])
+						done <- rd{one[0], n, err}
+					}()
+					select {
+					case <-raw.started:
+					case <-time.After(2 * time.Second):
+					}
+				case "setCrypt":
+					sess.SetCryptographer(sec)
+				case "writeResp":
+					conn.Write(answer)
+					raw.mu.Lock()
+					var all []byte
+					for _, o := range raw.out {
+						all = append(all, o...)
+					}
+					raw.mu.Unlock()
+					if bytes.Equal(all, answer) {
+						resp = "plain"
+					} else {
+						resp = "enc"
+						c.Violate("the answer to the pair-verify finish request is not sent in plaintext (cryptographer handed over too early)", id, ops, "plaintext M4", fmt.Sprintf("%d bytes, first %s", len(all), hx(all[:min(8, len(all))])))
+					}
+				case "peerSends":
+					raw.push(peer.Encrypt(request))
+				case "readDone":
+					select {
+					case x := <-done:
+						got := []byte{x.b}
+						if x.n == 1 && x.b == request[0] {
+							delivered = "dec"
+							rest := make([]byte, len(request))
+							for len(got) < len(request) {
+								n, err := conn.Read(rest)
+								if n == 0 || err != nil {
+									break
+								}
+								got = append(got, rest[:n]...)
+							}
+						} else {
+							delivered = "plain"
+						}
+						if !bytes.Equal(got, request) {
+							c.Violate("bytes sent by the controller after the pair-verify answer do not arrive decrypted (read was already waiting)", id, ops, string(request), fmt.Sprintf("n=%d err=%v first byte %02x, %d bytes in all", x.n, x.err, x.b, len(got)))
+						}
+					case <-time.After(4 * time.Second):
+						delivered = "none"
+						c.Violate("read on the connection does not return after the controller sent its request", id, ops, "request bytes", "timeout")
+					}
+				}
+			}
+			impl := fmt.Sprintf("resp=%s delivered=%s", resp, delivered)
+			line := "handover run 1 " + strings.Join(ops, " ")
+			c.Same("handover", id, ops, c.Model1(line), impl)
+			c.Count(fmt.Sprint(ops, rep), true, "stream:handover")
 		}
 	}
 }
